@@ -22,6 +22,7 @@ TR = "autograd/tracer.py"
 BU = "autograd/builtins.py"
 DO = "autograd/differential_operators.py"
 WU = "autograd/wrap_util.py"
+TUF = "autograd/test_util.py"
 
 # (name, {property: rule expected to fire}, [(file, old, new), ...])
 MUTANTS = [
@@ -110,6 +111,16 @@ MUTANTS = [
     ("new-trace-yields-before-increment", {"C08": "A12.bal"}, [(TR, "        self.top += 1\n        yield self.top\n        self.top -= 1", "        yield self.top\n        self.top += 1\n        self.top -= 1")]),
     ("new-trace-yields-stale-local", {"C08": "A12.bal"}, [(TR, "        self.top += 1\n        yield self.top\n        self.top -= 1", "        t = self.top\n        self.top += 1\n        yield t\n        self.top -= 1")]),
     ("new-trace-decrement-conditional", {"C08": "A12.bal", "C19": "A12.bal"}, [(TR, "        self.top += 1\n        yield self.top\n        self.top -= 1", "        self.top += 1\n        yield self.top\n        if self.top > 1:\n            self.top -= 1")]),
+    ("checker-skips-first-order-fwd", {"C18": "A18.modes"}, [(TUF, '    if "fwd" in modes:\n        check_jvp(f, x)\n        if order > 1:', '    if "fwd" in modes:\n        if order > 1:\n            check_jvp(f, x)\n        if order > 1:')]),
+    ("checker-recursion-changes-modes", {"C18": "A18.modes"}, [(TUF, '            v = vspace(x).randn()\n            check_grads(grad_f, (0, 1), modes, order=order - 1)(x, v)', '            v = vspace(x).randn()\n            check_grads(grad_f, (0, 1), ["rev"], order=order - 1)(x, v)')]),
+    ("checker-recursion-rev-uses-jvp", {"C18": "A18.modes"}, [(TUF, "            grad_f = lambda x, v: make_vjp(f, x)[0](v)", "            grad_f = lambda x, v: make_jvp(f, x)(v)[1]")]),
+    ("check-vjp-independent-draw", {"C18": "A18.compare"}, [(TUF, "    vjv_numeric = y_vs.inner_prod(y_v, jvp(x_v))", "    vjv_numeric = y_vs.inner_prod(y_v, jvp(x_vs.randn()))")]),
+    ("check-vjp-compares-with-itself", {"C18": "A18.compare"}, [(TUF, "    assert scalar_close(vjv_numeric, vjv_exact), (", "    assert scalar_close(vjv_exact, vjv_exact), (")]),
+    ("check-jvp-compares-primal", {"C18": "A18.compare"}, [(TUF, "    check_equivalent(jvp(x_v)[1], jvp_numeric(x_v))", "    check_equivalent(jvp(x_v)[0], jvp_numeric(x_v))")]),
+    ("check-equivalent-independent-projections", {"C18": "A18.compare"}, [(TUF, "    assert scalar_close(x_vs.inner_prod(x, v), x_vs.inner_prod(y, v)), f", "    assert scalar_close(x_vs.inner_prod(x, v), x_vs.inner_prod(y, x_vs.randn())), f")]),
+    ("numerical-jvp-one-sided", {"C18": "A18.numjvp"}, [(TUF, "        f_x_minus = f(x_vs.add(x, x_vs.scalar_mul(v, -EPS / 2)))", "        f_x_minus = f(x_vs.add(x, x_vs.scalar_mul(v, 0.0)))")]),
+    ("numerical-jvp-wrong-scale", {"C18": "A18.numjvp"}, [(TUF, "        return y_vs.scalar_mul(y_vs.add(f_x_plus, neg_f_x_minus), 1.0 / EPS)", "        return y_vs.scalar_mul(y_vs.add(f_x_plus, neg_f_x_minus), 2.0 / EPS)")]),
+    ("scalar-close-loose-tolerance", {"C18": "A18.tol"}, [(TUF, "TOL = 1e-6\nRTOL = 1e-6", "TOL = 1e-6\nRTOL = 1e-2")]),
     ("wrapper-unboxes-recursively", {"C08": "A13.unbox", "C06": "A13.unbox"}, [(TR, "argvals = subvals(args, [(argnum, box._value) for argnum, box in boxed_args])", "argvals = subvals(args, [(argnum, getval(box)) for argnum, box in boxed_args])")]),
     ("wrapper-calls-raw-on-partially-unboxed", {"C08": "A13.unbox", "C03": "A13.unbox", "C17": "A13.unbox"}, [(TR, "            ans = f_wrapped(*argvals, **kwargs)", "            ans = f_raw(*argvals, **kwargs)")]),
     ("notrace-branch-calls-raw", {"C14": "A13.unbox", "C08": "A13.unbox"}, [(TR, "                return f_wrapped(*argvals, **kwargs)", "                return f_raw(*argvals, **kwargs)")]),
@@ -225,6 +236,8 @@ BENIGN = [
     ("match-complex-inlined-as-helper-call", [(NV, "defvjp(anp.real, lambda ans, x: lambda g: match_complex(x, g))", "def _to_kind_of(x):\n    return lambda g: match_complex(x, g)\n\n\ndefvjp(anp.real, lambda ans, x: _to_kind_of(x))")]),
     ("extra-guard-in-jvp", [(NJ, "def fwd_grad_sort(g, ans, x, axis=-1, kind=\"quicksort\", order=None):\n", "def fwd_grad_sort(g, ans, x, axis=-1, kind=\"quicksort\", order=None):\n    if order is not None:\n        raise NotImplementedError(\"structured sort order\")\n")]),
     ("add-outgrads-sparse-first", [(CO, "    else:\n        if sparse:\n            return sparse_add(vspace(g), None, g), True\n        else:\n            return g, False", "    else:\n        if not sparse:\n            return g, False\n        return sparse_add(vspace(g), None, g), True")]),
+    ("checker-early-returns-and-temporaries", [(TUF, "    vjv_exact = x_vs.inner_prod(x_v, vjp_y)\n    vjv_numeric = y_vs.inner_prod(y_v, jvp(x_v))", "    tangent_out = jvp(x_v)\n    vjv_numeric = y_vs.inner_prod(y_v, tangent_out)\n    vjv_exact = x_vs.inner_prod(x_v, vjp_y)"), (TUF, "    return abs(a - b) < TOL or abs(a - b) / abs(a + b) < RTOL", "    diff = abs(a - b)\n    if diff < TOL:\n        return True\n    return diff / abs(a + b) < RTOL")]),
+    ("checker-rev-branch-first", [(TUF, '    if "fwd" in modes:\n        check_jvp(f, x)\n        if order > 1:\n            grad_f = lambda x, v: make_jvp(f, x)(v)[1]\n            grad_f.__name__ = f"jvp_{get_name(f)}"\n            v = vspace(x).randn()\n            check_grads(grad_f, (0, 1), modes, order=order - 1)(x, v)\n    if "rev" in modes:\n        check_vjp(f, x)\n        if order > 1:\n            grad_f = lambda x, v: make_vjp(f, x)[0](v)\n            grad_f.__name__ = f"vjp_{get_name(f)}"\n            v = vspace(f(x)).randn()\n            check_grads(grad_f, (0, 1), modes, order=order - 1)(x, v)', '    higher = order > 1\n    if "rev" in modes:\n        check_vjp(f, x)\n        if higher:\n\n            def vjp_of_f(x, v):\n                return make_vjp(f, x)[0](v)\n\n            vjp_of_f.__name__ = f"vjp_{get_name(f)}"\n            check_grads(vjp_of_f, (0, 1), modes, order=order - 1)(x, vspace(f(x)).randn())\n    if "fwd" in modes:\n        check_jvp(f, x)\n        if higher:\n\n            def jvp_of_f(x, v):\n                return make_jvp(f, x)(v)[1]\n\n            jvp_of_f.__name__ = f"jvp_{get_name(f)}"\n            check_grads(jvp_of_f, (0, 1), modes, order=order - 1)(x, vspace(x).randn())')]),
     ("new-trace-explicit-assignments", [(TR, "        self.top += 1\n        yield self.top\n        self.top -= 1", "        self.top = self.top + 1\n        yield self.top\n        self.top = self.top - 1")]),
     ("new-trace-local-id", [(TR, "        self.top += 1\n        yield self.top\n        self.top -= 1", "        trace_id = self.top + 1\n        self.top = trace_id\n        yield trace_id\n        self.top = trace_id - 1")]),
     ("new-trace-local-copy", [(TR, "        self.top += 1\n        yield self.top\n        self.top -= 1", "        self.top += 1\n        yield self.top\n        self.top -= 1\n        # balanced")]),
@@ -282,7 +295,7 @@ _SEED_MUTANTS, _SEED_BENIGN = _kept_patches()
 MUTANTS = MUTANTS + _SEED_MUTANTS
 BENIGN = BENIGN + _SEED_BENIGN
 
-ALL_PROPS = ["C01", "C02", "C03", "C04", "C05", "C06", "C07", "C08", "C09", "C10", "C11", "C12", "C13", "C14", "C15", "C16", "C17", "C19", "C20"]
+ALL_PROPS = ["C01", "C02", "C03", "C04", "C05", "C06", "C07", "C08", "C09", "C10", "C11", "C12", "C13", "C14", "C15", "C16", "C17", "C18", "C19", "C20"]
 
 
 def _reprint(d):
